@@ -3,6 +3,7 @@ open Lean Aeic Aeic.Wire
 
 /-- area prefix ↦ handler; ops are named `<area>.<name>` -/
 def handlers : List (String × (String → Json → Except String Json)) := [
+  ("store", Aeic.Store.handle)
 ]
 
 def dispatch (op : String) (j : Json) : Except String Json :=
